@@ -11,6 +11,6 @@ CONSTANTS
   MaxOpts = 1
   AllowNoFs = TRUE
   Setters <- SettersAll
-  MaxSetters = 3
+  MaxSetters = 2
   ExportHist = TRUE
 INVARIANTS TypeOK Agrees CheckAgrees Bounded Consumed Export
